@@ -74,6 +74,37 @@ def run_check(prop, tier, seed, replay=None):
         if bad:
             broken.append({'kind': 'forbidden-vernacular', 'obligation': 'grep', 'detail': str(bad)})
         # 3. correspondence: corpus first, then generated streams
+        custom = getattr(prop, 'custom', None)
+        if custom is not None and not replay:
+            cres = custom(ws, rng, tier, seed, ctx)
+            for n, ok in cres['obligations']:
+                obligations.append((n, ok))
+            broken.extend(cres['broken'])
+            failing.extend(cres['failing'])
+            coverage = {
+                'obligations': len(obligations), 'discharged': sum(1 for _, ok in obligations if ok),
+                'obligation_names': [n for n, _ in obligations],
+                'checker_cmd': 'coqc (Coq 8.16.1) on work/<run>/gen/*.v and coq/props/%s.v against coq/theories; Print Assumptions parsed' % prop.id,
+                'trusted_base': prop.trusted_base(), 'axioms': (props_info or {}).get('axioms', []),
+                'evaluations': cres['evaluations'], 'distinct_nontrivial': cres['distinct'], 'rule': prop.rule,
+                'samples': cres['samples'], 'input_histogram': cres['hist'], 'disagreements_checked': cres['disagreements'],
+                'oracle_failures': len(cres['failing']), 'members': cres['members'], 'model_partial': prop.partial_note,
+            }
+            if failing:
+                path = core.write_replay(prop.id, {'property': prop.id, 'kind': 'failing-input', 'cases': [failing[0]['case']], 'impl': failing[0]['impl'],
+                                                   'what': failing[0]['what'], 'seed': seed, 'member': failing[0].get('member'), 'broken': broken[:3]})
+                print('VIOLATION property=%s replay=%s' % (prop.id, path))
+                exit_code = 1
+            elif broken:
+                first = broken[0]
+                path = core.write_replay(prop.id, {'property': prop.id, 'kind': 'no-longer-checks', 'obligation': first['obligation'], 'detail': first['detail'],
+                                                   'cases': first.get('cases', []), 'seed': seed, 'all_broken': [b['obligation'] for b in broken]})
+                print('VIOLATION property=%s replay=%s no-failing-input-found' % (prop.id, path))
+                exit_code = 1
+            for e in core.known_findings(prop.id):
+                print('KNOWN-FINDING: property=%s %s' % (prop.id, e['what']))
+            core.write_evidence(prop.id, tier, seed, coverage, prop.assumptions(), time.time() - t0, len(failing) + (1 if broken and not failing else 0))
+            return exit_code
         if replay:
             d = json.load(open(replay))
             cases = [Case(c['op'], c['args'], 'replay', c.get('meta')) for c in d.get('cases', [])]
